@@ -8,6 +8,80 @@ import json, os
 ROOT = os.path.dirname(os.path.dirname(os.path.abspath(__file__)))
 
 CHECKS = {
+    "C04": dict(
+        level="model_checking",
+        technique="TLA+ spec solver/Lifecycle.tla (public solver protocol as a state machine over counters) model-checked by TLC; "
+                  "bound to the code by TLC trace validation of recorded executions (Trace_Lifecycle.tla, every invariant in "
+                  "every recorded state) and by replaying every TLC-generated call script (Gen_Lifecycle.tla) on the real solvers",
+        text="TLC checks on the design (all four solver kinds, <=3 Step/Solve calls, <=2 configuration calls, all limit "
+             "values 0/1/2/3/None, any termination oracle) that the evaluation counter equals the real calls, the evaluation "
+             "monitor length equals the calls since it was installed, generations equal completed iterations, a stopped "
+             "run's step monitor has generations+1 records and there is one callback per iteration -- and that the design "
+             "found on the pinned tree (counter restarting at re-decoration) violates them.  Every script of <=2 (quick) / "
+             "<=3 (thorough) public calls over a 26-letter alphabet plus 500/6000 seeded random scripts of <=8/12 calls are "
+             "run on real DE, DE2, Nelder-Mead and Powell solvers under a recorder that owns the cost, callback, termination "
+             "and monitors; TLC accepts a trace only if each event is the corresponding Lifecycle action and the reported "
+             "counters, monitor lengths, monitor contents (vs the recorder's own call log), callback argument and energy "
+             "history agree after every call and every iteration.  For DE/DE2 the spec's predicted counters are compared "
+             "field by field after every call.",
+        note="trusted: TLC, the recorder (harness/record.py) and its comparison of monitor contents with its own call log; "
+             "costs are cheap deterministic quadratics; process-based maps and verbose/logging monitor output are not "
+             "inspected beyond their record counts; SetGenerationMonitor(new=True) mid-run is outside the scripts",
+        design_ref="DESIGN.md section 4/C04"),
+    "C05": dict(
+        level="model_checking",
+        technique="same TLA+ specs and pipeline as C04 (Lifecycle / Trace_Lifecycle / Gen_Lifecycle); this check decides the "
+                  "clauses prefixed C05: in the trace specification",
+        text="TLC checks on the design that an iteration after the initial evaluation begins only from a state in which no "
+             "stop condition holds (action property), generations never exceed the limit in force when the iteration began, "
+             "evaluations overshoot by less than one iteration, the message class names a true condition, and (thorough) "
+             "that every Step/Solve call returns (liveness under weak fairness).  On the implementation, every recorded "
+             "Iter event must be enabled in the spec state reached so far (no stop condition in the pre-state, computed "
+             "from the recorder's own evaluation count, the limits as given with new=True/False, the recorder's evaluation "
+             "of the termination condition and the exit flag), every return must be the spec's PreStop/PostStop/"
+             "PostContinue with the same message class and the same resolved limits.  Scripts: all of <=2/3 calls over the "
+             "alphabet (limits 0/1/2/None, new=True/False, termination sets, exit requests before and inside callbacks) and "
+             "seeded random ones, on all four solver kinds.",
+        note="trusted: TLC and the recorder; exit requests are injected by setting the flag the signal handler sets (the "
+             "interactive prompt is not driven); default limits are taken from the documented formula; wrappers' warnflag is "
+             "checked by the wrapper section of the check",
+        design_ref="DESIGN.md section 4/C05"),
+    "C15": dict(
+        level="model_checking",
+        technique="TLA+ spec pen/Penalty.tla (state machine of stacked penalty closures) model-checked by TLC for design "
+                  "invariants and action properties; every reachable state and enabled call is emitted and every transition "
+                  "of the state graph is replayed on the real mystic.penalty closures (spec->code) with a full observation "
+                  "after every call",
+        text="For every chain of a catalogue (all nine types, k in {1,2,100,inf}, h in {1,2,5}, four condition tables over 4 "
+             "probes with values -2..2 and ZeroDivision, nesting depth 1-3 incl. every pair of types at depth 2) TLC "
+             "enumerates all reachable states (iteration counters <=2/3, stored lists <=3/4) and checks that clear and iter "
+             "affect exactly the addressed level and below, the store footprint, zero added penalty exactly on the feasible "
+             "set for the types whose documented formula says so, strictly positive when violated, stacked penalties add, "
+             "ZeroDivision yields an infinite penalty and error.  The harness executes every state-changing transition on "
+             "real closures and after each call compares iteration(), stored(), F[j](x) and F[j].error(x) at every level and "
+             "probe with the values TLC emitted (354k transitions quick, 4.8M thorough).  Exhaustive on the bounded class.",
+        note="trusted: TLC, the transcription of the docstring formulas into Penalty.tla, the float rendering n/d - sum "
+             "log(a)/q of spec values; comparison is == except chains with lagrange_inequality/barrier_inequality (1e-12 "
+             "relative) and error(x) vs sqrt(spec err^2) (1e-12 relative); barrier follows its documented log barrier and "
+             "Lagrange types the documented accumulation",
+        design_ref="DESIGN.md section 4/C15"),
+    "C17": dict(
+        level="model_checking",
+        technique="TLA+ specs cons/Combinators.tla (and_/or_/not_ as loops over arbitrary member functions on a finite domain, "
+                  "randomisation nondeterministic) and cons/Couplers.tla (table algebra) model-checked by TLC; TLC validates "
+                  "recorded executions of the real constraints.and_/or_/not_ against Trace_Combinators.tla and TLC-emitted "
+                  "cases are replayed on the real coupler functions",
+        text="Design: for the success rule the property demands, the three success claims, exactly one exit path and "
+             "termination within max(n, maxiter*n) member calls hold for all 27^n member tuples on |D|=3 (n<=3), all 256^2 "
+             "pairs on |D|=4, every input, maxiter 0..3 and every draw outcome; the rule found on the pinned tree (n equal "
+             "iterates) is refuted by TLC for and_.  Implementation: 5.6k (quick) / 81.6k (thorough) recorded runs of the real "
+             "combinators with table-driven members, scripted random draws and sentinel onexit/onfail are each accepted by "
+             "TLC as a run of the specified loop and have the claim evaluated on the returned vector; inner/outer/additive "
+             "and proxies and the penalty and_/or_/not_ are compared value by value on the emitted table class.",
+        note="trusted: TLC, the transcription of the loops, table-driven members (snapped floats), interning of float vectors; "
+             "premises: members deterministic and total, penalty members non-negative at iteration 0; members that raise are "
+             "out of scope (and_ swallows TypeError/ValueError from members: observation recorded in the evidence, not judged)",
+        design_ref="DESIGN.md section 4/C17"),
     "C10": dict(
         level="model_checking",
         technique="TLA+ specs term/Termination+TermMachine+TermPop+TermTree model-checked by TLC (design invariants) and "
